@@ -3,6 +3,8 @@ import XrsVerif.Proofs.ChunkGrid
 import XrsVerif.Proofs.KSimp
 import XrsVerif.Gen.Zonal
 import XrsVerif.Gen.Kernels
+import Mathlib.Tactic.FieldSimp
+import Mathlib.Tactic.Ring
 /-
   C03 -- Zonal tables do not depend on how Dask rasters are chunked.
 
@@ -139,6 +141,21 @@ theorem crosstab_blocks_add (zones : Nat → X κ) (values : Nat → X γ) (vali
         zones values valid cells zoneIds catIds perm := by
   rw [strip_fact, rows_flags_agree]
   exact crosstabDask2d_eq_numpy _ _ zones values valid cells perm zoneIds catIds blocks hb hne hp
+
+/-- **the percentage is taken the same way on both paths**: the expression `_crosstab_df_dask` normalises the
+    combined counts with (`Gen.Zonal.pctDask`, translated from the source) has the value of the one
+    `_crosstab_numpy` uses (`Gen.Zonal.pctNumpy`) for every total and every count -- so `crosstab_blocks_add`
+    carries over from counts to `agg='percentage'`.  A dask path that normalises by something else (the sum of the
+    selected columns, say) is not of this form: `pctDask` is `unknown` and this theorem does not check. -/
+theorem percentage_same_on_both_paths {F : Type} [Field F] [CharZero F] (total n : Nat) :
+    (pctCell Gen.Zonal.pctDask Gen.Zonal.stridesBits total n : Option F)
+      = pctCell Gen.Zonal.pctNumpy Gen.Zonal.stridesBits total n := by
+  unfold pctCell
+  by_cases h : total = 0
+  · simp [h]
+  · have ht : ((total : Nat) : F) ≠ 0 := by exact_mod_cast h
+    simp only [h, if_false, Gen.Zonal.pctDask, Gen.Zonal.pctNumpy, PExpr.eval, PVal.toF, Option.some.injEq]
+    try (first | rfl | (push_cast; ring1) | (push_cast; field_simp; done) | (push_cast; field_simp; ring1))
 
 /-- **every chunking** of both rasters (2-D crosstab): needs the rechunk of the values onto the zones
     chunking, `crosstab2d_aligns_fact` (defect D12 on a tree without it) -/
